@@ -27,7 +27,7 @@ def run(ctx):
     chk = ctx.check
     m = ctx.crate("metrics")
     crate_stats(chk, m)
-    chk.rule("C02.a", "WMC+TBL state machine: three pairwise distinct state constants; the only writes to `state` are one compare_exchange(UNINIT->INITIALIZING) and one store(INITIALIZED) on its success edge; only new/set/try_load touch the cell's fields; set_global_recorder -> GLOBAL_RECORDER.set; with_recorder reads only through try_load; GLOBAL_RECORDER is the only cell", floor=7)
+    chk.rule("C02.a", "WMC+TBL state machine: three pairwise distinct state constants; the only writes to `state` are one compare_exchange(UNINIT->INITIALIZING) and one store(INITIALIZED) on its success edge; only new/set/try_load touch the cell's fields; set_global_recorder -> GLOBAL_RECORDER.set; with_recorder reads only through try_load; GLOBAL_RECORDER is the only cell", floor=8)
     chk.rule("C02.b", "ORD+ATOM publication: UnsafeCell write on the CAS-success edge, dominating store(INITIALIZED) with ordering >= Release; try_load's state load >= Acquire dominates the UnsafeCell read, which is control-dependent on == INITIALIZED", floor=5)
     chk.rule("C02.c", "OWN hand-back: every non-success return builds Err(SetRecorderError(recorder)) from the parameter; Box::leak / forget / into_raw only on the success edge; the parameter is never dropped on a normal path", floor=4)
     chk.rule("C02.d", "TYPE: set_global_recorder rejects non-Sync (E0277) and non-'static (E0597) recorders; twins compile", floor=4)
@@ -47,6 +47,8 @@ def run(ctx):
     ok_shape = len(cas) == 1 and cas[0][1] == "compare_exchange" and len(stores) == 1 and not others
     chk.ob("C02.a", f"{setf.path} [state writes]", ok_shape, "one strong compare_exchange + one store" if ok_shape else f"atomic ops on the cell in set(): {[o[1] for o in ops]} (swap/weak CAS/extra writes break single-winner)", setf.loc())
     if not ok_shape:
+        chk.floors = {}
+        chk.rules = {k: v for k, v in chk.rules.items() if chk.count(k)}
         return
     casc, _, _, casargs = cas[0]
     stc, _, _, stargs = stores[0]
@@ -90,6 +92,15 @@ def run(ctx):
             if a and strip_sym(a[0])[:3] == ("const", "static", "metrics::recorder::GLOBAL_RECORDER") and not c.is_("RecorderOnceCell::set", "RecorderOnceCell::try_load"):
                 bad.append((p, c.resolved))
     chk.ob("C02.a", "GLOBAL_RECORDER [who-may-call]", not bad and users, f"used by {sorted(users)} only through set/try_load" if not bad else f"other access: {bad}")
+
+    # emissions without a local recorder read the cell on every call (no per-thread or global cache of a miss)
+    from props.c01 import with_recorder_leaves
+
+    wrf = m.fn("metrics::recorder::with_recorder")
+    if need(chk, "C02.a", "with_recorder", wrf):
+        res = with_recorder_leaves(wrf)
+        okl = res["n_user_calls"] == 3 and res["found"]["global"] is not None and res["found"]["noop"] is not None
+        chk.ob("C02.a", f"{wrf.path} [reads the cell on every emission]", okl, "the global leaf is the Some payload of GLOBAL_RECORDER.try_load() evaluated in this call; the no-op leaf is gated by that call returning None" if okl else "with_recorder does not dispatch on a fresh GLOBAL_RECORDER.try_load() result (cached lookup? a miss would be remembered)", wrf.loc())
 
     # ---- C02.b publication
     edges = variant_edges(b, casc.t["target"]) if b.term(casc.t["target"])["k"] == "switch" else {}
